@@ -49,6 +49,7 @@ var complement = map[string]string{
 	"ok": "fail", "fail": "ok", "eq": "neq", "neq": "eq", "true": "false", "false": "true",
 	"is": "notis", "notis": "is", "nil": "nonnil", "nonnil": "nil", "has": "lacks", "lacks": "has",
 	"errIs": "notErrIs", "notErrIs": "errIs", "errAs": "notErrAs", "notErrAs": "errAs",
+	"member": "notmember", "notmember": "member",
 }
 
 func swapped(f *Term) *Term {
@@ -419,6 +420,7 @@ type e1func struct {
 	curSites  *[]*e1site
 	emitted   map[string]bool
 	eligCache map[any]map[*ast.CallExpr]bool
+	loopAll   map[*ast.RangeStmt][]*Term // all(xs, F) facts established when the range loop is exhausted
 }
 
 func (e *e1) analyse(fi *FuncInfo) *e1func {
@@ -787,46 +789,56 @@ func (f *e1func) run() {
 			}
 		}
 	}
-	in[0][entry.Key()] = entry
-	work := []int32{0}
-	onwork := map[int32]bool{0: true}
-	for len(work) > 0 {
-		bi := work[0]
-		work = work[1:]
-		onwork[bi] = false
-		b := g.Blocks[bi]
-		if !b.Live {
-			continue
+	// quantified loop facts (e1_quant.go) depend on the back-edge states of the fixpoint: iterate until they are stable
+	for pass := 0; pass < 4; pass++ {
+		for i := range in {
+			in[i] = map[string]*fstate{}
 		}
-		f.visits++
-		if f.visits > 20000 {
-			f.widened = true
-			break
-		}
-		outs := f.flowBlock(b, f.sorted(in[bi]), nil)
-		for si, succ := range b.Succs {
-			changed := false
-			for _, st := range outs[si] {
-				if _, ok := in[succ.Index][st.Key()]; !ok {
-					in[succ.Index][st.Key()] = st
+		in[0][entry.Key()] = entry
+		work := []int32{0}
+		onwork := map[int32]bool{0: true}
+		for len(work) > 0 {
+			bi := work[0]
+			work = work[1:]
+			onwork[bi] = false
+			b := g.Blocks[bi]
+			if !b.Live {
+				continue
+			}
+			f.visits++
+			if f.visits > 20000 {
+				f.widened = true
+				break
+			}
+			outs := f.flowBlock(b, f.sorted(in[bi]), nil)
+			for si, succ := range b.Succs {
+				changed := false
+				for _, st := range outs[si] {
+					if _, ok := in[succ.Index][st.Key()]; !ok {
+						in[succ.Index][st.Key()] = st
+						changed = true
+					}
+				}
+				if len(in[succ.Index]) > e1StateCap {
+					// widen: collapse to the intersection of all states
+					f.widened = true
+					var all []*fstate
+					for _, st := range in[succ.Index] {
+						all = append(all, st)
+					}
+					m := intersect(all)
+					in[succ.Index] = map[string]*fstate{m.Key(): m}
 					changed = true
 				}
-			}
-			if len(in[succ.Index]) > e1StateCap {
-				// widen: collapse to the intersection of all states
-				f.widened = true
-				var all []*fstate
-				for _, st := range in[succ.Index] {
-					all = append(all, st)
+				if changed && !onwork[succ.Index] {
+					onwork[succ.Index] = true
+					work = append(work, succ.Index)
 				}
-				m := intersect(all)
-				in[succ.Index] = map[string]*fstate{m.Key(): m}
-				changed = true
 			}
-			if changed && !onwork[succ.Index] {
-				onwork[succ.Index] = true
-				work = append(work, succ.Index)
-			}
+		}
+
+		if f.widened || !f.updateLoopFacts(g, in) {
+			break
 		}
 	}
 	// replay once to collect sink sites with their reaching states
@@ -1075,6 +1087,22 @@ func (f *e1func) flowBlock(b *cfg.Block, cur []*fstate, sites *[]*e1site) [][]*f
 	}
 	for i := range b.Succs {
 		outs[i] = cur
+	}
+	if b.Kind == cfg.KindRangeLoop && len(b.Succs) == 2 {
+		// leaving the loop because the range is exhausted: what held at the end of every iteration holds for all elements
+		if rs, ok := b.Stmt.(*ast.RangeStmt); ok {
+			if qs := f.loopAll[rs]; len(qs) > 0 {
+				var done []*fstate
+				for _, st := range cur {
+					if ns := st.with(qs...); ns != nil {
+						done = append(done, &fstate{facts: ns.facts, from: st, via: fmt.Sprintf("L%d:range done", f.eng.c.P.Fset.Position(rs.Pos()).Line)})
+					} else {
+						done = append(done, st)
+					}
+				}
+				outs[1] = dedupStates(done)
+			}
+		}
 	}
 	return outs
 }
@@ -1954,6 +1982,7 @@ func (f *e1func) branchExpr(st *fstate, cond ast.Expr, val bool) []*fstate {
 				fs = append(fs, x)
 			}
 		}
+		fs = append(fs, deriveFacts(st, fs)...)
 		if ns := st.with(fs...); ns != nil {
 			out = append(out, ns)
 		}
@@ -2207,11 +2236,41 @@ func solve(st *fstate, clauses []Clause, b Bind) solveResult {
 	keys := sortedKeys(st.facts)
 	var rec func(ci int, b Bind, used []string) (Bind, []string, bool)
 	var matchAll func(pats []*Term, i int, b Bind, used []string, k func(Bind, []string) bool) bool
+	deferred := map[*Term]int{}
 	matchAll = func(pats []*Term, i int, b Bind, used []string, k func(Bind, []string) bool) bool {
 		if i == len(pats) {
 			return k(b, used)
 		}
 		p := pats[i]
+		if p.S == "def" && len(p.A) >= 2 {
+			lhs := subst(p.A[0], b)
+			if lhs.K == "pv" && i+1 < len(pats) && deferred[p] < 2 {
+				// the defined variable is not bound yet: let the other atoms bind it first
+				deferred[p]++
+				np := append(append(append([]*Term{}, pats[:i]...), pats[i+1:]...), p)
+				r := matchAll(np, i, b, used, k)
+				deferred[p]--
+				if r {
+					return true
+				}
+			}
+			if !hasPV(lhs) {
+				// "v is defined as E" also holds when the bound term is E itself (a helper's local was replaced by its
+				// definition when the helper returned, or the code never introduced the variable)
+				var virt *Term
+				if len(p.A) == 3 && lhs.K == "res" && len(lhs.A) == 1 {
+					virt = fact("def", lhs, lhs.A[0], mk("const", lhs.S))
+				} else if len(p.A) == 2 && lhs.K != "var" {
+					virt = fact("def", lhs, lhs)
+				}
+				if virt != nil {
+					nb := b.clone()
+					if unify(p, virt, nb) && matchAll(pats, i+1, nb, append(used, "by definition "+virt.String()), k) {
+						return true
+					}
+				}
+			}
+		}
 		if holds, decided := builtinHolds(st, p, b); decided {
 			if holds {
 				return matchAll(pats, i+1, b, append(used, "builtin "+subst(p, b).String()), k)
